@@ -55,6 +55,7 @@ def _expand_kwargs(prog: Program, c: CallRec, star: ast.expr) -> Dict[str, Tuple
     """`f(**opts)` where `opts` is a local with ONE reaching definition `dict(k=v, ...)` / `{'k': v, ...}`: the keys and values"""
     dep = getattr(prog, '_dep_engine', None)
     if dep is None or not isinstance(star, ast.Name):
+        OPEN_KWARGS.add(id(c.node))
         return {}
     owner = getattr(prog, '_call_owner', None)
     if owner is None:
@@ -65,12 +66,15 @@ def _expand_kwargs(prog: Program, c: CallRec, star: ast.expr) -> Dict[str, Tuple
         prog._call_owner = owner
     res = owner.get(id(c.node))
     if res is None:
+        OPEN_KWARGS.add(id(c.node))
         return {}
     ids = res.load_defs.get(id(star), ())
     if len(ids) != 1:
+        OPEN_KWARGS.add(id(c.node))
         return {}
     d = res.defs[next(iter(ids))]
     if d.kind != 'assign' or d.rhs is None:
+        OPEN_KWARGS.add(id(c.node))
         return {}
     items = {}
     v = d.rhs
@@ -78,10 +82,44 @@ def _expand_kwargs(prog: Program, c: CallRec, star: ast.expr) -> Dict[str, Tuple
         items = {k.arg: k.value for k in v.keywords if k.arg}
     elif isinstance(v, ast.Dict) and all(isinstance(k, ast.Constant) and isinstance(k.value, str) for k in v.keys):
         items = {k.value: val for k, val in zip(v.keys, v.values)}
-    # the dict must not be modified between its definition and the call (no stores into it)
-    for n in ast.walk(ast.Module(body=[res.defs[i].node for i in res.defs if isinstance(res.defs[i].node, ast.stmt)], type_ignores=[])):
-        pass
+    else:
+        OPEN_KWARGS.add(id(c.node))
+        return {}
+    # later stores `opts['k'] = v` into the same local extend the dict; any other mutation (update, pop, del, a computed key)
+    # makes the set of keys open: the caller then cannot say that a keyword is NOT passed
+    fn_node = prog.functions[res.qname].node if getattr(res, 'qname', None) in prog.functions else None
+    if fn_node is not None:
+        for n in ast.walk(fn_node):
+            if isinstance(n, (ast.Assign, ast.AugAssign)):
+                tg = n.targets if isinstance(n, ast.Assign) else [n.target]
+                for t in tg:
+                    if isinstance(t, ast.Subscript) and isinstance(t.value, ast.Name) and t.value.id == star.id:
+                        if isinstance(t.slice, ast.Constant) and isinstance(t.slice.value, str) and isinstance(n, ast.Assign):
+                            items.setdefault(t.slice.value, n.value)
+                        else:
+                            OPEN_KWARGS.add(id(c.node))
+            if isinstance(n, ast.Call) and isinstance(n.func, ast.Attribute) and isinstance(n.func.value, ast.Name) \
+                    and n.func.value.id == star.id and n.func.attr in ('update', 'pop', 'setdefault', 'clear', 'popitem'):
+                if n.func.attr == 'update' and not n.args and all(k.arg for k in n.keywords):
+                    for k in n.keywords:
+                        items.setdefault(k.arg, k.value)
+                else:
+                    OPEN_KWARGS.add(id(c.node))
     return {k: (e, expr_sources(res, e)) for k, e in items.items()}
+
+
+OPEN_KWARGS: set = set()      # ids of call nodes with a `**mapping` whose keys could not be enumerated completely
+
+
+def has_open_kwargs(prog: Program, c) -> bool:
+    """the call passes `**mapping` and the keys of the mapping are not all known: absence of a keyword cannot be concluded"""
+    node = c.node if hasattr(c, 'node') else c
+    stars = [k for k in node.keywords if k.arg is None]
+    if not stars:
+        return False
+    if id(node) in OPEN_KWARGS:
+        return True
+    return any(not isinstance(k.value, ast.Name) for k in stars)
 
 
 def find_iterable_dispatch(f: FuncInfo) -> Optional[ast.If]:
